@@ -251,18 +251,20 @@ int cif_pktitr_next_packet(
                             /* can't add new items to a dependent target packet */
                             FAIL(soft, CIF_ARGUMENT_ERROR);
                         } else {
+                            /* copy the key first, so that on failure the entry is still released with the temp packet */
+                            UChar *key_copy = cif_u_strdup(entry->key);
+
+                            if (key_copy == NULL) {
+                                FAIL(soft, CIF_MEMORY_ERROR);
+                            }
                             HASH_DEL(temp_packet->map.head, entry);
                             name_len = (size_t) U_BYTES(entry->key);
     
                             /* convert the entry to standalone, for compatibility with the packet */
-                            entry->key = cif_u_strdup(entry->key);
-    
-                            if (entry->key != NULL) {
-                                /* add the entry to the packet */
-                                HASH_ADD_KEYPTR(hh, (*packet)->map.head, entry->key, name_len, entry);
-                            } else {
-                                FAIL(soft, CIF_MEMORY_ERROR);
-                            }
+                            entry->key = key_copy;
+
+                            /* add the entry to the packet */
+                            HASH_ADD_KEYPTR(hh, (*packet)->map.head, entry->key, name_len, entry);
                         }
                     }
     
